@@ -15,6 +15,7 @@ mod pipeline;
 mod position;
 mod prng;
 mod report;
+mod sem;
 
 use report::{Aggregate, Found, Report};
 use serde_json::{json, Value};
@@ -32,6 +33,8 @@ fn run_one(prop: &str, seed: u64, run: u64) -> Report {
         "C10" => loader_sim::run(seed, run),
         "C06" => env_sim::run(seed, run),
         "C15" => c15::run(seed, run),
+        "C17" => c15::run_prop("C17", hist::Sem::C17, seed, run),
+        "C18" => c15::run_prop("C18", hist::Sem::C18, seed, run),
         _ => {
             eprintln!("oalsim: unknown property {prop}");
             std::process::exit(2)
@@ -44,6 +47,8 @@ fn replay_one(prop: &str, doc: &Value) -> Result<Option<Found>, String> {
         "C10" => loader_sim::replay(doc),
         "C06" => env_sim::replay(doc),
         "C15" => c15::replay(doc),
+        "C17" => c15::replay_prop("C17", doc),
+        "C18" => c15::replay_prop("C18", doc),
         _ => Err(format!("unknown property {prop}")),
     }
 }
